@@ -102,6 +102,44 @@ theorem outOk2_encFlush {e : Enc} (h : OutOk2 e) : OutOk2 (encFlush e) := by
 theorem flush_total {e : Enc} (h : OutOk2 e) : (encFlush e).outTotal = (encFlush e).out.length := by
   rw [(outOk2_encFlush h).1]; simp [Enc.out]
 
+/-- `rc_shift_low`: one more byte written or pending -/
+theorem shiftLow_T {e : Enc} (h : 1 ≤ e.cacheSize) :
+    T (shiftLow e) = T e + 1 ∧ 1 ≤ (shiftLow e).cacheSize ∧ (shiftLow e).low = (e.low % 16777216) * 256 ∧
+      (e.low = 0 → (shiftLow e).cacheSize = 1) := by
+  by_cases hc : e.low % U32 < 0xFF000000 ∨ (e.low / U32) % U32 ≠ 0
+  · rw [shiftLow_pos hc]
+    refine ⟨?_, Nat.le_refl _, rfl, fun _ => rfl⟩
+    simp only [T, length_pushN, List.length_cons]; omega
+  · rw [shiftLow_neg hc]
+    refine ⟨?_, by simp only []; omega, rfl, ?_⟩
+    · simp only [T]; omega
+    · intro h0
+      exfalso; apply hc; left
+      rw [h0]; simp only [U32]; omega
+
+/-- a flushed range-coder stream has at least the five flush bytes -/
+theorem flush_len5 {e : Enc} (h : 1 ≤ e.cacheSize) : 5 ≤ (encFlush e).out.length := by
+  have hn : 1 ≤ (normalize e).cacheSize := by
+    unfold normalize
+    split
+    · exact (shiftLow_T h).2.1
+    · exact h
+  generalize he0 : ({ normalize e with range := UINT32_MAX } : Enc) = e0
+  have h0 : 1 ≤ e0.cacheSize := by rw [← he0]; exact hn
+  obtain ⟨t1, c1, l1, _⟩ := shiftLow_T h0
+  obtain ⟨t2, c2, l2, _⟩ := shiftLow_T c1
+  obtain ⟨t3, c3, l3, _⟩ := shiftLow_T c2
+  obtain ⟨t4, c4, l4, _⟩ := shiftLow_T c3
+  obtain ⟨t5, c5, _, z5⟩ := shiftLow_T c4
+  have hz : (shiftLow (shiftLow (shiftLow (shiftLow e0)))).low = 0 := by
+    rw [l4, l3, l2, l1]; omega
+  have hcs := z5 hz
+  have hfl : encFlush e = shiftLow (shiftLow (shiftLow (shiftLow (shiftLow e0)))) := by rw [← he0]; rfl
+  rw [hfl]
+  simp only [T] at t1 t2 t3 t4 t5
+  simp only [Enc.out, List.length_reverse]
+  omega
+
 /-! ### `encodeChunk` with its loop named -/
 
 abbrev ChunkLoopSt := LzmaEnc × Nat × Nat × Nat × Nat × Nat
